@@ -1418,7 +1418,7 @@ def check_accounting(ctx: Ctx, markdown_only: bool = False) -> None:
             # the T branch returns without reaching the word / sentence splitting
             reach = fl.cfg.reachable_from(tsucc[0]) if tsucc else set()
             splits = [n for n, c in fl.all_calls() if (isinstance(c.func, ast.Name) and c.func.id in (target,)) or
-                      (isinstance(c.func, ast.Name) and "split" in c.func.id)]
+                      (isinstance(c.func, ast.Name) and "split" in c.func.id and (c.args or c.keywords))]  # (a getter of the splitter splits nothing)
             if tsucc and not any(s in reach for s in splits) and all(fl.cfg.path_avoiding(fl.cfg.entry, s, {g}) is None for s in splits):
                 ok = True
         ctx.ob("R-ACCT", f"{f.qual} :: width <= 0 short-circuits before splitting", ok,
